@@ -146,7 +146,7 @@ def run_correspondence(prop, tier, seed, bins, drv):
     if rc != 0:
         res["disagreements"].append({"kind": "generator-failed", "detail": err[-500:]})
         return res
-    lines = [l for l in cases.splitlines() if l.strip()]
+    lines = [l for l in cases.splitlines() if l.strip() and not l.startswith("#")]
     res["cases"] = len(lines)
     if not lines:
         return res
